@@ -29,6 +29,16 @@ CHECKS = {
         design_ref="DESIGN.md §2 C02",
         note="Trusted: BLS (kyber bdn), SHA-256. Reference validator judges binding + signature + power, not block execution. Fast-sync path only at checkpoint heights (exempt by the property).",
     ),
+    "C12": dict(
+        engine="E-NODE",
+        category="exploration",
+        technique="runtime invariant monitor over raw state scans after every block of seeded full-node chains; the chain itself (plus a cool-down of empty blocks) is the no-wedge probe",
+        text="Two full nodes run seeded chains of stake/edit/pause/unpause/unstake/parameter-change transactions with tiny stakes, non-signing members and slash percentages up to 100; "
+             "after every committed block the validator records, unstaking/paused markers and supply tallies are cross-checked from raw scans, and every height up to past the last "
+             "deferred action must be producible by the proposer, accepted by the replica and committed.",
+        design_ref="DESIGN.md §2 C12, §3 F3",
+        note="An anchor validator that never leaves keeps the committee non-empty (a chain whose validators all left cannot certify blocks; that is outside the wedge notion). Double-sign slashes are C14's workload.",
+    ),
     "C15": dict(
         engine="E-BFT",
         category="exploration",
@@ -130,8 +140,8 @@ def main():
 
 
 NA = {}
-HOOK_COMMITS = ["bffe7c1"]
-FIX_COMMITS = ["ac69fcc", "f14e602", "7290d0d", "11d5f11", "edf91ea"]
+HOOK_COMMITS = ["bffe7c1", "d8cae5e"]
+FIX_COMMITS = ["ac69fcc", "f14e602", "7290d0d", "11d5f11", "edf91ea", "ab4ad20"]
 
 if __name__ == "__main__":
     main()
